@@ -254,7 +254,7 @@ def build(rec: Dict[str, Any], seed: int, axis_aligned: bool = False) -> Built:
       act.append(f'<general name="a_flt" joint="{pj()}" dyntype="filter" dynprm="{_v(r.uniform(0.02, 0.3))}" gainprm="{_v(r.uniform(0.5, 3))}" '
                  f'biastype="affine" biasprm="{_v(r.uniform(-1, 1, size=3))}"{g()}{lims()}{actlim()}{early}/>')
     if F("act_filterexact"):
-      act.append(f'<general name="a_fle" joint="{pj()}" dyntype="filterexact" dynprm="{_v(r.uniform(0.02, 0.3))}" gainprm="{_v(r.uniform(0.5, 3))}"{g()}{actlim()}{early}/>')
+      act.append(f'<general name="a_fle" joint="{pj()}" dyntype="filterexact" dynprm="{_v(r.uniform(0.02, 0.3) if r.random() < 0.6 else r.uniform(0.004, 0.012))}" gainprm="{_v(r.uniform(0.5, 3))}"{g()}{actlim()}{early}/>')
     if F("act_integrator"):
       act.append(f'<general name="a_int" joint="{pj()}" dyntype="integrator" gainprm="{_v(r.uniform(0.5, 3))}" gaintype="affine" '
                  f'biastype="affine" biasprm="{_v(r.uniform(-1, 1, size=3))}"{g()}{lims()}{actlim()}{early}/>'.replace('gaintype="affine" ', ""))
